@@ -5,8 +5,6 @@ open Snel Snel.Proto Snel.Agg
 /-! Line driver for C09. Streams:
 
 * `flow <cal> <gran|-> <tf> <groupBy|-> <metrics> <width> { P { B { R cell* } } }` → final table
-* `flowin … RESULT <table tokens>` → `in` when the table is one of the two outcomes the
-  unspecified `HashMap` iteration order of `into_partial` allows
 * `state <metric> <state>+` → left fold of `AggState::merge`, then `agg_state_to_scalar`
 * `bucket <cal|naive> <gran> <i64>` → bucket start (u64)
 * `pi64 <hex>` → `get_i64_at` of a one-string column
@@ -125,37 +123,16 @@ def showTable (t : Option (List (Key × List Out))) : String :=
   | some [] => "empty"
   | some rows => " ".intercalate ((rows.mergeSort fun a b => keyLe a.1 b.1).map showRow)
 
-def runLine (p : Plan) (w : Nat) (flows : List (List (List (List Scalar)))) (mask : Nat) : String :=
-  -- base-3 digit i of `mask`: 0 = row-path group wins, 1 = columnar group wins, 2 = keys met (merged)
-  showTable (finalTable p (runFlows p (fun i =>
-    match (mask / 3 ^ i) % 3 with
-    | 0 => some false
-    | 1 => some true
-    | _ => none) (flows.map (tagFlow p w))))
+def runLine (p : Plan) (w : Nat) (flows : List (List (List (List Scalar)))) : String :=
+  showTable (finalTable p (runFlows p (flows.map (tagFlow p w))))
 
-def flowAnswer (toks : List String) (membership : Bool) : String :=
+def flowAnswer (toks : List String) : String :=
   match toks with
   | cal :: gran :: tf :: gb :: ms :: w :: body =>
     match parsePlan cal gran tf gb ms, w.toNat? with
     | some p, some w =>
       match parseBody w (body.length + 1) body [] with
-      | some (acc, result) =>
-        let flows := fixOrder acc
-        -- every flow's sink map has its own iteration order: all 3^k outcomes
-        -- only flows whose sink holds both kinds of key have more than one outcome
-        let anySplit := flows.any fun fl =>
-          let t := sinkAgg p (tagFlow p w fl)
-          t.any (fun e => e.1.zero) && t.any (fun e => !e.1.zero)
-        let cands := if anySplit then
-            ((List.range (3 ^ (min flows.length 5))).map (runLine p w flows)).eraseDups
-          else [runLine p w flows 0]
-        if membership then
-          let r := " ".intercalate result
-          if cands.contains r then "in" else "out " ++ " || ".intercalate cands
-        else
-          match cands with
-          | [a] => a
-          | _ => "split " ++ " || ".intercalate cands
+      | some (acc, _) => runLine p w (fixOrder acc)
       | none => "bad-op"
     | _, _ => "bad-op"
   | _ => "bad-op"
@@ -234,8 +211,7 @@ def convAnswer (toks : List String) : String :=
 
 def answer (line : String) : String :=
   match words line with
-  | "flow" :: rest => flowAnswer rest false
-  | "flowin" :: rest => flowAnswer rest true
+  | "flow" :: rest => flowAnswer rest
   | "state" :: rest => stateAnswer rest
   | ["bucket", mode, g, ts] =>
     match parseGran g, parseInt ts with
